@@ -2,6 +2,7 @@
 from checks import pure_fns, law_audits
 from checks import extra_audits
 from checks import api_cov
+from checks import scale_inv
 LEAN_TARGETS = ["QmcProps.C08", "drv_c08"]
 BINS = ["c08"]
 
@@ -44,6 +45,7 @@ RULE = ("random table Hamiltonians (1-4 variables, 1-5 bonds on 1-4 variables (3
         "traj: one real sweep (Metropolis / heat-bath with the real or an inflated table) under a recorded RNG, replayed by the model; "
         "prob: threshold bisection of the bond/attempt/acceptance/removal words of a random empty slot k inside a sweep, "
         "compared with the model's rationals and (oracle, real code only) p_insert/p_remove against beta*w/(L-n) with the n current at slot k. "
+        "generic samplers: the reference Hamiltonian is what was REGISTERED (matrices handed to make_interaction / make_diagonal_interaction; index = outputs++inputs, first variable most significant), and Interaction::at must return the registered entry on every pattern; 3- and 4-variable terms with variables in random order: maximum at a controlled sub-state, or pairwise distinct diagonal entries (i+1)/8 in random order with zeros (not reversal symmetric), via the diagonal constructor or as full 64-/256-entry matrices; sampler bisection prefers many-body bonds (non-palindromic sub-states counted); "
         "generic: Qmc with set_do_heatbath(true) that has already swept (lazy table built) gets a further interaction (3/4 of them with an all-equal diagonal: constant term, equal-diagonal full matrix, constant diagonal constructor), then diagonal_update trajectories replayed with the table of the CURRENT interactions (gsweep) and the insert/remove probabilities of the NEW bond bisected (gprob); "
         "converted: Ising samplers run hot then cold (sparse long string; 1/6 converted before any step; 1/4 frustrated) and converted with into_qmc: first sweep must use the Ising cutoff at conversion, trajectories (msweep/gsweep), heat-bath bisection, and a drain step at beta = 1e-12 after which no operator with inputs == outputs may remain anywhere in the string; ising_field: QmcIsingGraph with h of either sign and set_enable_heatbath(true): sweeps replayed with the table of the full Hamiltonian, FIELD bonds bisected on favoured spins (weight 2|h|) and shown never inserted on unfavoured spins (gzero); "
         "in half of the ising_field cases (heat-bath 3/4, default 1/4) the manager is grown by hand (get_manager_mut().set_cutoff(len + 1..40)) before the examined step; constant_terms: Qmc with >= 2 constant single-site terms of different weights (weight 0 in 1/4) registered in random order: Metropolis bisection on a fresh sampler in the unclipped regime (mprob through diagonal_update; other bonds evaluated at slots 0..k first), heat-bath bisection with an earlier insertion of another constant bond in the same sweep, gzero for weight-0 constant bonds, trajectories of both variants; "
@@ -65,4 +67,5 @@ def main(ck):
         ck.correspond("generic-sampler-heatbath", "drv_c08", ck.harness("c08", ["generic"]))
     law_audits.run(ck, groups=['refine', 'ideal', 'sweep', 'heatbath', 'good'])   # idealised law of the executable model = the Markov kernel of the invariance theorems
     api_cov.run(ck, "c08")   # otherwise unexercised public API, model-free oracles of this property
+    scale_inv.run(ck, "c08")   # power-of-two unit change: identical trajectory, energies exactly scaled (model-free twin oracle)
     return ck.finish(RULE)
